@@ -4,7 +4,7 @@ CONSTANTS
   Advances = {1000, 119000, 121000}
   Extras = {"srcip", "process", "timeout"}
   MaxReq = 4
-  MaxLen = 7
+  MaxLen = 6
 INIT GInit
 NEXT GNext
 INVARIANT Emit
